@@ -767,5 +767,14 @@ pub fn sample_bytes(t: u32, k: u32, len: u32) -> Vec<u8> {
     };
     let n = prefix.len().min(v.len());
     v[..n].copy_from_slice(&prefix[..n]);
+    // one of the first two samples of a track in three is exactly one well-formed ADTS frame (sync
+    // word, layer 0, no CRC, 13-bit frame length equal to the sample size) announcing an object
+    // type, sampling frequency and channel configuration of its own - what a caller feeding .aac
+    // frames produces; to the container it is payload like any other
+    if k < 2 && (7..8192).contains(&len) && t.wrapping_add(len) % 3 == 0 {
+        let (profile, freq, chan) = ((len % 4) as u8, ((len / 4) % 13) as u8, 1 + ((len / 64) % 7) as u8);
+        let hdr = [0xff, 0xf1, (profile << 6) | (freq << 2) | (chan >> 2), ((chan & 3) << 6) | ((len >> 11) & 3) as u8, ((len >> 3) & 0xff) as u8, (((len & 7) as u8) << 5) | 0x1f, 0xfc];
+        v[..7].copy_from_slice(&hdr);
+    }
     v
 }
